@@ -650,6 +650,7 @@ def map_reset_pair(ctx):
                   'our-only entry kept with a reduced clock but its nested value is not reset by what other has seen', line=ln)
     # theirs-only and both-present (main body)
     seen_t = seen_b = merged = False
+    both_site = merge_site = None
     both_msg = theirs_msg = None
     lt = lb = body.line
     for bb, c2 in sorted(it.calls.items()):
@@ -706,6 +707,7 @@ def map_reset_pair(ctx):
                     both_msg = 'the nested value of an entry present on both sides is reset before their value is merged into it: what the reset was meant to delete comes back with the merge'
                 elif sides == {1, 2}:
                     seen_b = True
+                    both_site = bb
                 else:
                     both_msg = 'the dots deleted from an entry present on both sides are computed from %s only (side %s): what the other side had under this key and we removed is not reset' % (fmt_c(e[1]) if e[0] == 'minus' else fmt_c(e), sorted(sides))
         if n == 'merge' and len(c2.args) == 2 and (cinfo(c2.cid)['trait'] or '').endswith('CvRDT'):
@@ -713,6 +715,23 @@ def map_reset_pair(ctx):
             if e0 and e1 and tuple(e0[3]) == ('val',) and tuple(e1[3]) == ('val',):
                 if param_path(e0[0]) and param_path(e0[0])[0] == 1 and param_path(e1[0]) and param_path(e1[0])[0] == 2:
                     merged = True
+                    merge_site = bb
+    if seen_b and merged and both_site is not None:
+        # .. on every path of the case they are for: the key is on both sides and the recomputed witness is not empty
+        def atom_b(t):
+            a_ = presence_atom(t, 1, r['entries'], 'ours_has')
+            if a_ is not None:
+                return a_
+            if is_call(t, 'is_empty', self_adt='VClock') and t[2] and cexpr(t[2][0])[0] in ('join', 'meet'):
+                return 'gone'
+            return None
+        fr_b = iteration_frame(it, both_site)
+        rc_b = Reach(facts, body, Evaluator(facts, bool_atom=atom_b, assumption={'ours_has': True, 'gone': False}))
+        for site_, what_ in ((merge_site, 'merged'), (both_site, 'reset')):
+            ok_ = rc_b.must_pass([site_], start=fr_b[0], stops=(fr_b[1],)) if fr_b else rc_b.must_pass([site_])
+            if not ok_:
+                seen_b = False
+                both_msg = 'an entry present on both sides whose witness survives can skip having its nested value %s (a path of that case avoids it)' % what_
     ctx.check(seen_t, 'merge/theirs-only', body, 'adopted nested value reset with a clock derived from the pre-merge self.clock',
               theirs_msg or 'their-only entry adopted with a reduced clock but its nested value is not reset by what we have seen and removed', line=lt)
     ctx.check(seen_b and merged, 'merge/both', body, 'nested values merged, then reset by the dots that left the entry clock',
